@@ -154,24 +154,24 @@ class Oracle:
         if not p.t:
             return "nonneg"
         kinds = self.zr.ring.kind
-        strict = True
+        some_strict = False  # one strictly positive monomial (constant or product of exponentials) among non-negative ones
         for m, c in p.t.items():
             if c < 0:
                 return None
+            strict = True
             for i, e in self.zr.ring.mono_items(m):
                 k = kinds[i]
                 if k == "E":
                     continue
                 if k == "R":
-                    strict = strict and False
+                    strict = False
                     continue
                 if e % 2 == 0 and k in ("V", "C", "S", "L"):
                     strict = False
                     continue
                 return None
-        if strict or 0 in p.t:
-            return "pos"
-        return "nonneg"
+            some_strict = some_strict or strict
+        return "pos" if some_strict else "nonneg"
 
     def _poly_sign(self, p, want):
         """want in {'pos','nonneg'}; proves the sign of polynomial p for all generator values"""
